@@ -856,7 +856,8 @@ class ScriptedStrategy(BaseStrategy):
         self.idx = collections.Counter()  # market -> number of process_market_book calls so far
         self.by_step = collections.defaultdict(list)
         for act in script.get("actions", []):
-            self.by_step[(act["m"], act["at"])].append(act)
+            # "via": [market, step] - the request on market act["m"] is made while an update of ANOTHER market is being processed
+            self.by_step[tuple(act["via"]) if act.get("via") else (act["m"], act["at"])].append(act)
         self.refs = {}  # ref -> order
         self.trade_refs = {}
         # fault injection: [(callback kind, nth invocation of that callback)] -> raise inside the callback
@@ -997,7 +998,13 @@ class ScriptedStrategy(BaseStrategy):
         self.idx[market.market_id] += 1
         for act in self.by_step.get((market.market_id, i), ()):
             if act.get("cb", "book") == "book":
-                self._do(market, act)
+                target = market
+                if act["m"] != market.market_id:
+                    target = market.flumine.markets.markets.get(act["m"])
+                    if target is None or target.closed or target.market_book is None:
+                        self._log(act, exc="target-market-not-available")
+                        continue
+                self._do(target, act)
 
     def process_orders(self, market, orders):
         self._enter("orders", market)
